@@ -349,8 +349,6 @@ def _helper_ok(f):
     if _stmt_count(f.body) > 70:
         return False
     for s in walk_stmts(f.body):
-        if s.k in ('label', 'goto'):
-            return False
         if s.k == 'decl' and s.static:
             return False
     from .ir import callee_name, calls_in
@@ -378,6 +376,17 @@ def _reseated(f, p):
     return False
 
 
+def _address_taken(f, p):
+    from .program import all_exprs
+    for ex in all_exprs(f):
+        for n in walk(ex):
+            if n.k == 'un' and n.op == '&':
+                l = strip(n.a[0])
+                if l is not None and l.k == 'var' and l.decl == p.decl:
+                    return True
+    return False
+
+
 def _clone_e(e, vmap, refsub):
     if e is None:
         return None
@@ -393,7 +402,7 @@ def _clone_e(e, vmap, refsub):
             return E('un', op='&', a=[x], t=e.t, dt=e.dt, file=e.file, line=e.line)
         if e.decl in vmap:
             v = vmap[e.decl]
-            return E('var', op=v.op, t=v.t, dt=v.dt, decl=v.decl, dk='VarDecl', file=e.file, line=e.line)
+            return E('var', op=v.op, t=v.t, dt=v.dt, decl=v.decl, dk=v.dk or 'VarDecl', file=e.file, line=e.line)
     c = E(e.k, op=e.op, a=[_clone_e(x, vmap, refsub) for x in e.a], t=e.t, dt=e.dt, val=e.val, decl=e.decl, dk=e.dk,
           arrow=e.arrow, file=e.file, line=e.line, uid=e.uid, post=e.post, body=None, macro=e.macro)
     return c
@@ -425,10 +434,13 @@ def _clone_s(s, vmap, refsub, ret, endlabel, newlocals, tag, tail):
         vmap[v.decl] = nv
         newlocals[nv.decl] = nv
         return S('decl', var=nv, e=_clone_e(s.e, vmap, refsub), static=False, file=s.file, line=s.line, macro=s.macro)
-    c = S(s.k, e=_clone_e(s.e, vmap, refsub) if s.e is not None else None, label=s.label, file=s.file, line=s.line,
+    lab = s.label
+    if s.k in ('label', 'goto') and lab is not None:
+        lab = '%s@%s' % (lab, tag)              # the helper's own labels are private to this expansion
+    c = S(s.k, e=_clone_e(s.e, vmap, refsub) if s.e is not None else None, label=lab, file=s.file, line=s.line,
           static=s.static, macro=s.macro, uid=s.uid, endline=s.endline, var=s.var)
     # a return nested in a branch is a tail return only if the branch itself is in tail position
-    inner_tail = tail and s.k in ('compound', 'if')
+    inner_tail = tail and s.k in ('compound', 'if', 'label')
     for attr in ('body', 'then', 'els'):
         x = getattr(s, attr)
         if x is not None:
@@ -532,6 +544,22 @@ def inline_new_helpers(prog, max_rounds=3):
                         expand(g, wrap.body)
                         if len(wrap.body) != 1 or wrap.body[0] is not x:
                             setattr(s, attr, wrap)
+                if s.k == 'if' and s.els is None and s.e is not None:
+                    # if(a && f(x)) S  ==  if(a) { if(f(x)) S }   when a later operand of the chain holds a new helper's
+                    # call: the inner `if` then has the call in first position and can be expanded
+                    cands0 = set(cands_by_unit.get(g.unit, {}))
+                    ce = s.e
+                    while ce is not None and ce.k == 'cast' and ce.a and ce.macro != 'explicit':
+                        ce = ce.a[0]
+                    if ce is not None and ce.k == 'bin' and ce.op == '&&' and _first_call(ce, cands0) is None:
+                        from .ir import callee_name as _cn
+                        later = any(n.k == 'call' and _cn(n) in cands0 for n in walk(ce.a[1]))
+                        if later:
+                            inner = S('if', e=ce.a[1], then=s.then, els=None, file=s.file, line=s.line)
+                            s.e = ce.a[0]
+                            s.then = S('compound', body=[inner], file=s.file, line=s.line)
+                            changed = True
+                            continue      # revisit: the nested block is expanded first
                 if s.k in ('expr', 'decl', 'return', 'if') and s.e is not None and not (s.k == 'decl' and s.static):
                     cands = cands_by_unit.get(g.unit, {})
                     c = _first_call(s.e, set(k for k in cands if cands[k] is not g))
@@ -551,6 +579,12 @@ def inline_new_helpers(prog, max_rounds=3):
                                 if (p.t or '').rstrip().endswith('*') and sa is not None and sa.k == 'un' and sa.op == '&' \
                                         and _is_pure_lvalue(sa.a[0]) and not _reseated(f, p):
                                     refsub[p.decl] = sa.a[0]
+                                elif sa is not None and sa.k == 'var' and sa.dk in ('ParmVarDecl', 'VarDecl') and \
+                                        not _reseated(f, p) and not _address_taken(f, p) and \
+                                        (sa.t or '').replace('const ', '') == (p.t or '').replace('const ', ''):
+                                    # a caller's variable handed over by value to a parameter the helper never changes:
+                                    # the parameter *is* that variable for the duration of the call
+                                    vmap[p.decl] = sa
                                 else:
                                     nv = E('var', op=p.op, t=p.t, dt=p.dt, decl='%s@%s' % (p.decl, tag), dk='VarDecl',
                                            file=c.file, line=c.line)
